@@ -248,6 +248,11 @@ func c07Exec(j c07Job) (res c07Res) {
 	for _, o := range w.Outs[nOutsBefore:] {
 		unc.Outs[o.O.Msg.B_] = true
 	}
+	if j.Mode == "error" && !crashed && len(w.Obs) > 0 && strings.HasSuffix(w.Obs[len(w.Obs)-1], "-> ok") {
+		// the operation answered with success despite the injected storage error: the client HAS the response, nothing
+		// about it is uncertain, and the durability pass must hold for it too (returned signatures stored, inputs spent)
+		unc = mintops.NewUncertain()
+	}
 	// violations raised by the interrupted / failed operation itself are not judged (the client got no answer or an error)
 	w.V = w.V[:vBefore]
 	where := fmt.Sprintf("%s/%s-before:%s", c07Kind(sc.Name), j.Mode, res.Fault)
